@@ -55,6 +55,11 @@ CLAIMED["C20"] = ("model_checking",
   "The jawk binary built from the working tree is spawned for every combination of 12 inputs, 4 policies, 11 configurations (+file arguments, missing file), stdout as pipe / EPIPE pipe / /dev/full, row separator with and without newline; stdout must equal the library run's rows, diagnostics under --on-error=stderr must be on stderr only, and the exit status must be 0 exactly when the run succeeded and every byte was accepted (and non-zero for malformed input under --on-error=panic, judged by the reference reader).",
   "Outside: stdout as a closed descriptor (>&-), which std maps to success.",
   "DESIGN.md §5 C20")
+CLAIMED["C08"] = ("model_checking",
+  "bounded-exhaustive enumeration of row histories x pipelines x (S,T) on jawk::go; differential against the implementation's own unlimited result plus lock-step comparison with a reference pipeline (stable multi-key sort)",
+  "All streams of <=4 (thorough 5) rows over the keys {a,b,c,absent} with distinguishable tied rows, and every stream of <=3 rows repeated cyclically to 17 and 40 rows, under 12 pipelines (0..3 sort keys with ties in both directions, unique, filter, split, sort on a selected name) x {rows, --group-by, --merge} x S in 0..3 (thorough 0..6) x T in {absent, 0..3} (thorough 0..6): the output must be exactly rows S..S+T-1 of the implementation's unlimited result (or the single collection built from exactly those rows), and must equal the reference pipeline.",
+  "trusted: the reference order on strings and small integers. Sort keys are strings and small integers only (the order itself is C07's subject).",
+  "DESIGN.md §5 C08")
 NOT_YET = {}
 props=[json.loads(l) for l in open('/verif/properties.jsonl')]
 checks=[]; na=[]
